@@ -1,6 +1,7 @@
 package server
 
 import (
+	"encoding/binary"
 	"encoding/json"
 	"fmt"
 	"io"
@@ -59,6 +60,33 @@ func logMutationPayload(data []byte) (ref string, err error) {
 	return blobstore.PutBlob(data)
 }
 
+// discardTornTail truncates a mutation log that ends with an incomplete record (the process
+// died inside an append), so that later records are not appended behind unreadable bytes.
+func discardTornTail(f *os.File) error {
+	fi, err := f.Stat()
+	if err != nil {
+		return err
+	}
+	fileSize := fi.Size()
+	hdr := make([]byte, 10) // protolog header: uint32 size, uint32 checksum, uint16 type
+	var pos int64
+	for pos+10 <= fileSize {
+		if _, err := f.ReadAt(hdr, pos); err != nil {
+			return err
+		}
+		next := pos + 10 + int64(binary.LittleEndian.Uint32(hdr[0:4]))
+		if next > fileSize {
+			break
+		}
+		pos = next
+	}
+	if pos < fileSize {
+		dvid.Criticalf("mutation log %q ends with a torn record at position %d; discarding %d bytes\n", f.Name(), pos, fileSize-pos)
+		return f.Truncate(pos)
+	}
+	return nil
+}
+
 func getJSONLogFile(versionID, dataID dvid.UUID) (lf *logFile, err error) {
 	fname := path.Join(tc.Mutations.Jsonstore, string(dataID)+"-"+string(versionID)+".plog")
 	jsonLogFilesMux.Lock()
@@ -70,6 +98,11 @@ func getJSONLogFile(versionID, dataID dvid.UUID) (lf *logFile, err error) {
 		f, err = os.OpenFile(fname, os.O_APPEND|os.O_CREATE|os.O_RDWR|os.O_SYNC, 0755)
 		if err != nil {
 			dvid.Errorf("Could not open new JSON mutation log: %v\n", err)
+			return nil, err
+		}
+		if err = discardTornTail(f); err != nil {
+			dvid.Errorf("Could not check JSON mutation log %s for a torn record: %v\n", fname, err)
+			f.Close()
 			return nil, err
 		}
 		dvid.Infof("Created mutation JSON log for data %s, version %s\n", dataID, versionID)
@@ -132,7 +165,10 @@ func StreamMutationsForVersion(w io.Writer, versionID, dataID dvid.UUID) error {
 	numMutations := 0
 	for {
 		typeID, jsondata, err := r.Next()
-		if err == io.EOF {
+		if err != nil {
+			if err != io.EOF {
+				dvid.Criticalf("mutation log for data %s, version %s unreadable after %d records: %v\n", dataID, versionID, numMutations, err)
+			}
 			break
 		}
 		if numMutations != 0 {
@@ -205,7 +241,10 @@ func sendVersionMutations(ch chan []byte, uuid, dataID dvid.UUID) (numMutations 
 
 	for {
 		typeID, jsondata, err := r.Next()
-		if err == io.EOF {
+		if err != nil {
+			if err != io.EOF {
+				dvid.Criticalf("mutation log for data %s, version %s unreadable after %d records: %v\n", dataID, uuid, numMutations, err)
+			}
 			break
 		}
 		if typeID != jsonMsgTypeID {
